@@ -73,11 +73,15 @@ enum Scope {
 /// `Plain`: store without annotations; sub-selections are `ResultTextSelection::Unbound`.
 /// `Bound`: every range of the text carries an annotation; sub-selections are `ResultTextSelection::Bound`.
 /// `Item`: as `Bound`, but the call goes through the separate `impl FindText for ResultItem<TextSelection>`.
+/// `Sparse`: only the first codepoint carries an annotation and there are no milestones: the byte<->codepoint index has
+/// entries at positions 0 and 1 only, so every later position is converted by counting on from an entry that is not the
+/// start of the text (in `Plain` there is no entry at all, in `Bound` every position has its own).
 #[derive(Clone, Copy, PartialEq, Eq, Debug)]
 enum Recv {
     Plain,
     Bound,
     Item,
+    Sparse,
 }
 
 impl Recv {
@@ -86,12 +90,14 @@ impl Recv {
             Recv::Plain => "plain",
             Recv::Bound => "bound",
             Recv::Item => "item",
+            Recv::Sparse => "sparse",
         }
     }
     fn from_name(s: &str) -> Recv {
         match s {
             "bound" => Recv::Bound,
             "item" => Recv::Item,
+            "sparse" => Recv::Sparse,
             _ => Recv::Plain,
         }
     }
@@ -351,6 +357,7 @@ struct Ctx<'s> {
     chars: Vec<char>,
     plain: &'s AnnotationStore,
     bound: Option<&'s AnnotationStore>,
+    sparse: Option<&'s AnnotationStore>,
     two: Option<&'s AnnotationStore>,
 }
 
@@ -418,6 +425,7 @@ fn exec(ctx: &Ctx, scope: Scope, recv: Recv, op: &Op) -> Result<LibOut, String> 
         }
         let store = match recv {
             Recv::Plain => ctx.plain,
+            Recv::Sparse => ctx.sparse.expect("sparsely annotated store"),
             _ => ctx.bound.expect("annotated store"),
         };
         let res = store.resource("r").expect("resource r");
@@ -436,7 +444,7 @@ fn exec(ctx: &Ctx, scope: Scope, recv: Recv, op: &Op) -> Result<LibOut, String> 
                         assert!(sel.as_resultitem().is_some(), "harness: scope selection must be bound");
                         exec_on!(&sel, op)
                     }
-                    Recv::Plain => exec_on!(&sel, op),
+                    Recv::Plain | Recv::Sparse => exec_on!(&sel, op),
                 }
             }
         }
@@ -602,6 +610,8 @@ fn ranges(v: &[Got]) -> Vec<R> {
     v.iter().map(|g| (g.b, g.e)).collect()
 }
 
+// (the sparsely annotated store shares the classes of the store without annotations: what fails there fails in the same way
+// here, and a failure that only occurs here shows as a new class or as more failing inputs than recorded)
 fn scope_class(scope: Scope, recv: Recv) -> &'static str {
     match (scope, recv) {
         (Scope::Res, _) => "res",
@@ -1339,16 +1349,20 @@ pub fn run(rep: &Reporter) -> Coverage {
         let two = build_store(text, &[], Some(R2_TEXT), None);
         // the annotated store also has a milestone every 2 codepoints (byte<->codepoint index entries the search results are converted through)
         let bound = if n <= bound_maxlen { Some(build_store(text, &all_ranges(n), None, Some(Config::default().with_milestone_interval(2)))) } else { None };
-        let ctx = Ctx { text, chars, plain: &plain, bound: bound.as_ref(), two: Some(&two) };
+        let sparse = if n >= 2 { Some(build_store(text, &[(0, 1)], None, None)) } else { None };
+        let ctx = Ctx { text, chars, plain: &plain, bound: bound.as_ref(), sparse: sparse.as_ref(), two: Some(&two) };
         let (mut c, mut k, mut nt) = (0u64, 0u64, 0u64);
         let sc = scopes(n);
         debug_assert!(sc.len() < 64);
         for (si, scope) in sc.iter().enumerate() {
-            let recvs: &[Recv] = match (scope, ctx.bound.is_some()) {
-                (_, false) => &[Recv::Plain],
-                (Scope::Res, true) => &[Recv::Plain, Recv::Bound],
-                (Scope::Sel(..), true) => &[Recv::Plain, Recv::Bound, Recv::Item],
+            let mut recvs: Vec<Recv> = match (scope, ctx.bound.is_some()) {
+                (_, false) => vec![Recv::Plain],
+                (Scope::Res, true) => vec![Recv::Plain, Recv::Bound],
+                (Scope::Sel(..), true) => vec![Recv::Plain, Recv::Bound, Recv::Item],
             };
+            if ctx.sparse.is_some() {
+                recvs.push(Recv::Sparse);
+            }
             for (ri, recv) in recvs.iter().enumerate() {
                 for (oi, spec) in ops.iter().enumerate() {
                     if n > spec.maxlen {
@@ -1419,7 +1433,7 @@ pub fn run(rep: &Reporter) -> Coverage {
             "alphabet": SIGMA.iter().map(|c| c.to_string()).collect::<Vec<_>>(),
             "texts": texts.len(), "max_text_codepoints": maxlen,
             "searched_ranges": "the whole resource and every sub-selection [b,e) with 0<=b<=e<=len (ResultTextSelection::Unbound)",
-            "annotated_store_variant": format!("texts of at most {} codepoints are searched again in a store where every range is a known selection, through ResultTextSelection::Bound and through ResultItem<TextSelection>", bound_maxlen),
+            "annotated_store_variant": format!("texts of at most {} codepoints are searched again in a store where every range is a known selection, through ResultTextSelection::Bound and through ResultItem<TextSelection>; every text of two or more codepoints is searched a third time in a store where only its first codepoint is a known selection (index entries at 0 and 1 only, no milestones)", bound_maxlen),
             "needles_and_delimiters": needles().len(),
             "trim_sets": 8,
             "sequence_cases": ops.iter().filter(|o| matches!(o.op, Op::Seq{..})).count(),
@@ -1468,7 +1482,8 @@ pub fn replay(rep: &Reporter, case: &Value) {
     let plain = build_store(&text, &[], None, None);
     let two = build_store(&text, &[], Some(R2_TEXT), None);
     let bound = build_store(&text, &all_ranges(n), None, Some(Config::default().with_milestone_interval(2)));
-    let ctx = Ctx { text: &text, chars, plain: &plain, bound: Some(&bound), two: Some(&two) };
+    let sparse = build_store(&text, if n >= 1 { &[(0, 1)] } else { &[] }, None, None);
+    let ctx = Ctx { text: &text, chars, plain: &plain, bound: Some(&bound), sparse: Some(&sparse), two: Some(&two) };
     println!("replay C07: text={:?} scope={:?} recv={} op={}", text, scope, recv.name(), op.to_json());
     check_op(rep, &ctx, scope, recv, &op, 0, true);
 }
